@@ -541,6 +541,7 @@ class BaseWorker(object, metaclass=abc.ABCMeta):
             name=self.name,
             ID=self.ID,
             team_id=self.team_id if self.team_id is not None else None,
+            main_workplace_id=self.main_workplace_id,
             cost_per_time=self.cost_per_time,
             solo_working=self.solo_working,
             workamount_skill_mean_map=self.workamount_skill_mean_map,
